@@ -248,6 +248,10 @@ fn c16_all(quick: bool) -> Vec<C16Case> {
             }
         }
     }
+    // BED text through a pipe named like a file
+    for (ucsc, threads) in [(false, 1usize), (true, 4)] {
+        v.push(C16Case { bed: true, input: 97, threads, parallel: s("auto"), single_pass: true, inmemory: false, uncompressed: false, block_size: 256, zooms: false, multicall: false, ucsc, stdin: false });
+    }
     // many chromosomes through the multi-threaded to-text converter under a limit of 64 open files
     for ucsc in [false, true] {
         v.push(C16Case { bed: false, input: 98, threads: 4, parallel: s("auto"), single_pass: false, inmemory: true, uncompressed: false, block_size: 256, zooms: false, multicall: false, ucsc, stdin: false });
@@ -404,6 +408,51 @@ fn c16_low_fd(c: &C16Case, out: &mut Outcome) {
     }
 }
 
+/// The BED text arrives through a pipe that is named like a file (`<(cat in.bed)`, a FIFO): it
+/// can be read once, from the start, and nothing that was read from it comes back.  With a supplied
+/// autoSql and `--single-pass` the converter has no reason to look at the input twice; lines of a
+/// fixed 64 bytes make every 8 KiB read-ahead end on a line boundary.
+fn c16_pipe_input(c: &C16Case, out: &mut Outcome) {
+    let wd = workdir();
+    let dir = wd.path();
+    let n = 4000u32;
+    let mut text = String::new();
+    for i in 0..n {
+        let line = format!("chr{}\t{}\t{}\tname{:06}\t{}\t+", 1 + i / 2000, 10 * (i % 2000), 10 * (i % 2000) + 7, i, i % 1000);
+        text.push_str(&format!("{:<63}\n", line));
+    }
+    // pad with blanks inside the last column so that every line has 64 bytes
+    let text: String = text.lines().map(|l| format!("{}\n", l.trim_end())).map(|l| { let pad = 64usize.saturating_sub(l.len()); format!("{}{}\n", l.trim_end_matches('\n'), "x".repeat(pad)) }).collect();
+    std::fs::write(dir.join("in.bed"), &text).unwrap();
+    std::fs::write(dir.join("sizes"), "chr1\t30000\nchr2\t30000\n").unwrap();
+    std::fs::write(dir.join("x.as"), "table six\n\"six columns\"\n(\nstring chrom; \"c\"\nuint chromStart; \"s\"\nuint chromEnd; \"e\"\nstring name; \"n\"\nuint score; \"sc\"\nchar[1] strand; \"st\"\n)\n").unwrap();
+    let tool = if c.ucsc { "bedToBigBed" } else { "bedtobigbed" };
+    let tags = vec![s("bed"), s("input_through_a_named_pipe")];
+    let script = format!("exec ./{} -a x.as --single-pass <(cat in.bed) sizes out.bb -t {}", tool, c.threads);
+    let r = std::process::Command::new("/bin/bash").arg("-c").arg(&script).current_dir(dir).stdin(Stdio::null()).stdout(Stdio::null()).stderr(Stdio::piped()).output();
+    out.count("process_runs", 1);
+    out.count("conversions_from_a_named_pipe", 1);
+    let (code, stderr) = match r {
+        Ok(o) => (o.status.code(), String::from_utf8_lossy(&o.stderr).to_string()),
+        Err(e) => {
+            out.fail("harness_panic", &[], format!("bash: {}", e));
+            return;
+        }
+    };
+    if code != Some(0) {
+        // refusing a pipe loudly is not a round-trip violation
+        out.count("conversions_from_a_named_pipe_refused", 1);
+        let _ = stderr;
+        return;
+    }
+    let r = run_in(dir, &[s("bigbedtobed"), s("out.bb"), s("back.bed")]);
+    out.count("process_runs", 1);
+    let back = std::fs::read_to_string(dir.join("back.bed")).unwrap_or_default();
+    if r.code != Some(0) || back != text {
+        out.fail("roundtrip_records_differ", &tags, format!("{:?}: exit 0, then {} lines come back for {} lines of input (first line back {:?})", script, back.lines().count(), text.lines().count(), back.lines().next()));
+    }
+}
+
 impl Check for C16 {
     type Case = C16Case;
     fn id(&self) -> &'static str {
@@ -420,6 +469,10 @@ impl Check for C16 {
         }
         if c.input == 98 {
             c16_low_fd(c, out);
+            return;
+        }
+        if c.input == 97 {
+            c16_pipe_input(c, out);
             return;
         }
         let wd = workdir();
@@ -1066,6 +1119,8 @@ pub fn avg_regions(k: usize) -> Vec<(String, u32, u32, String)> {
             (s("chr2"), 0, 8, s("x y  z")),
             (s("chr1"), 8, 16, s("plain")),
         ],
+        // no region at all (an empty file): an empty result, whatever the thread count
+        6 => vec![],
         // 41 rows, one of them 40 KB long (its name): longer than every buffer used to find the
         // line ends at which the parallel path cuts the file
         5 => {
@@ -1112,6 +1167,7 @@ pub fn avg_tool_cases(quick: bool) -> Vec<AvgTool> {
     v.push(AvgTool { file: 0, regions: 5, namecol: None, min_max: false, final_newline: true });
     v.push(AvgTool { file: 0, regions: 5, namecol: Some(s("interval")), min_max: true, final_newline: false });
     v.push(AvgTool { file: 0, regions: 4, namecol: Some(s("interval")), min_max: false, final_newline: false });
+    v.push(AvgTool { file: 0, regions: 6, namecol: None, min_max: true, final_newline: false });
     for file in 0..2 {
         for regions in 0..4 {
             for namecol in [None, Some("5"), Some("interval"), Some("none")] {
@@ -1944,7 +2000,8 @@ pub fn c08_tool(c: &crate::model::BedCase, out: &mut Outcome) {
     for z in &d.zooms {
         for (ci, ch) in c.chroms.iter().enumerate() {
             let all: Vec<&indep::ZRec> = z.blocks.iter().flatten().filter(|r| r.chrom == ci as u32).collect();
-            for (qs, qe) in [(0u32, ch.len), (3, 9), (ch.len - 1, ch.len)] {
+            // (ranges reaching beyond the chromosome end as well: entries may, and so may zoom records)
+            for (qs, qe) in [(0u32, ch.len), (3, 9), (ch.len - 1, ch.len), (0, ch.len + 400), (ch.len - 1, ch.len + 5), (ch.len, ch.len + 50), (ch.len + 20, 200_000)] {
                 let a = vec![s("bigbedtobed"), s("f.bb"), s("z.txt"), s("--zoom"), z.reduction.to_string(), s("--chrom"), ch.name.clone(), s("--start"), qs.to_string(), s("--end"), qe.to_string()];
                 let r = run_in(dir, &a);
                 out.count("tool_zoom_runs", 1);
